@@ -636,7 +636,7 @@ def parse_equation(equation: str) -> List[Symbol]:
     try:
         equation = template.format(*[str(t) for t in terms])
         code = template.format(*[t.code for t in terms])
-    except (AttributeError, IndexError, KeyError, ValueError) as e:
+    except (AttributeError, IndexError, KeyError, TypeError, ValueError) as e:
         # Stray braces (or backticks spanning the equals sign) leave a template
         # that doesn't match the list of terms
         raise ParserError(
